@@ -31,6 +31,43 @@ from torcheval.metrics.metric import TState
 
 _logger: logging.Logger = logging.getLogger(__name__)
 
+# dtypes that ranks can negotiate in ``send_tensors``; the position in this list is the code on the wire
+_DTYPES: list[torch.dtype] = [
+    torch.bool,
+    torch.uint8,
+    torch.int8,
+    torch.int16,
+    torch.int32,
+    torch.int64,
+    torch.float16,
+    torch.bfloat16,
+    torch.float32,
+    torch.float64,
+    torch.complex64,
+    torch.complex128,
+]
+
+
+def _transport_dtype(dtypes: list[torch.dtype]) -> torch.dtype:
+    """
+    Helper function that picks the dtype in which tensors of different dtypes travel:
+    the promoted dtype, widened where the promotion would not hold every integer
+    (``promote_types(int64, float32)`` is float32), so that casting a gathered
+    tensor back to its sender's dtype returns what was sent.
+    """
+    transport = dtypes[0]
+    for dtype in dtypes[1:]:
+        transport = torch.promote_types(transport, dtype)
+    if any(
+        not (dtype.is_floating_point or dtype.is_complex or dtype == torch.bool)
+        for dtype in dtypes
+    ):
+        if transport.is_complex:
+            transport = torch.complex128
+        elif transport.is_floating_point:
+            transport = torch.float64
+    return transport
+
 
 def _simple_send_tensors(
     tensor: Tensor,
@@ -148,23 +185,45 @@ def send_tensors(
     world_size = dist.get_world_size(group)
 
     # ranks may disagree on the number of dimensions (e.g. a state that stays a 0-dim default until
-    # the first update): negotiate it first, so that every rank issues the same collectives
-    ndim = torch.tensor([result.ndim], device=result.device)
-    ndims = [int(n) for n in none_throws(_simple_send_tensors(ndim, world_size, group, None))]
+    # the first update) and on the dtype (e.g. a state whose dtype follows the data, next to a float32
+    # default): negotiate both first, so that every rank issues the same collectives
+    code = _DTYPES.index(result.dtype) if result.dtype in _DTYPES else -1
+    meta = torch.tensor([result.ndim, code], device=result.device)
+    metas = [
+        m.tolist() for m in none_throws(_simple_send_tensors(meta, world_size, group, None))
+    ]
+    ndims = [m[0] for m in metas]
+    codes = [m[1] for m in metas]
     max_ndim = max(ndims)
 
-    # if all tensors are scalar, things are easy
-    if max_ndim == 0:
-        return _simple_send_tensors(result, world_size, group, rank=rank)
+    dtypes = None
+    if len(set(codes)) > 1:
+        if -1 in codes:
+            raise ValueError(
+                "Tensors of different dtypes can only be synced for dtypes in "
+                f"{_DTYPES}, got {result.dtype} on this rank."
+            )
+        # tensors of different dtypes travel in a common dtype that holds all of them ...
+        dtypes = [_DTYPES[c] for c in codes]
+        result = result.to(_transport_dtype(dtypes))
 
-    # tensors with fewer dimensions travel with leading dimensions of size 1 ...
-    result = result.reshape((1,) * (max_ndim - result.ndim) + result.shape)
-    gathered_result = _send_uneven_tensors(result, world_size, group, rank=rank)
-    if gathered_result:
-        # ... and get their own shape back on receipt
-        for idx, item_ndim in enumerate(ndims):
-            item = gathered_result[idx]
-            gathered_result[idx] = item.reshape(item.shape[max_ndim - item_ndim :])
+    if max_ndim == 0:
+        # if all tensors are scalar, things are easy
+        gathered_result = _simple_send_tensors(result, world_size, group, rank=rank)
+    else:
+        # tensors with fewer dimensions travel with leading dimensions of size 1 ...
+        result = result.reshape((1,) * (max_ndim - result.ndim) + result.shape)
+        gathered_result = _send_uneven_tensors(result, world_size, group, rank=rank)
+        if gathered_result:
+            # ... and get their own shape back on receipt
+            for idx, item_ndim in enumerate(ndims):
+                item = gathered_result[idx]
+                gathered_result[idx] = item.reshape(item.shape[max_ndim - item_ndim :])
+    if gathered_result and dtypes:
+        # ... and get their sender's dtype back on receipt
+        gathered_result = [
+            item.to(dtype) for item, dtype in zip(gathered_result, dtypes)
+        ]
     return gathered_result
 
 
